@@ -133,6 +133,7 @@ def correspondence(ctx):
                         elif pred != "depends" and pred != obs:
                             ctx.disagree("cross-compare", line, obs, pred, False, {"class_a": a, "class_b": b}, spec=None)
     ctx.sample({"line": "xcmp PypiVersion DebianVersion __lt__", "model": answers["xcmp PypiVersion DebianVersion __lt__"]})
+    _converted_ranges_hold_their_own_class(ctx)
     # foreign versions against constraints and ranges of every scheme
     xl = []
     for name in S.ALL:
@@ -169,6 +170,7 @@ def correspondence(ctx):
                     continue
                 shapes.append((label, lambda v, rr=rr: v in rr))
                 shapes.append((label + " .contains()", lambda v, rr=rr: rr.contains(v)))
+                shapes.append((label + " satisfies(range)", lambda v, rr=rr: v.satisfies(rr)))
         # history: the scheme's own versions, in the spellings shared with other classes, are tested first, so that
         # anything remembered about (range, printed text) is there when the foreign version with that text arrives
         for t in ("1.2.3", "1.0.1"):
@@ -201,6 +203,50 @@ def correspondence(ctx):
                     elif pred != "depends" and obs != pred and kind in ("constraint", "range", "satisfies"):
                         ctx.disagree("foreign-membership", "xin %s %s (%s)" % (vcls.__name__, c, kind), obs, pred, False,
                                      {"scheme": name, "foreign_class": c, "kind": kind})
+
+
+def _converted_ranges_hold_their_own_class(ctx):
+    """whatever a converter builds for a scheme holds versions of that scheme's class (a version of another class inside
+    a range is a silent comparison between schemes waiting to happen: `[1.0]` converted for nuget must hold NuGet
+    versions)"""
+    from harness.props.c05 import NATIVES
+    from univers import version_range as VR
+    stream = "converted-ranges"
+    work = []
+    for scheme, rc in sorted(VR.RANGE_CLASS_BY_SCHEMES.items()):
+        exprs = NATIVES.get(rc.__name__, [])
+        for e in exprs:
+            work.append((scheme, rc, "from_native(%r)" % e, lambda rc=rc, e=e: rc.from_native(e)))
+            work.append((scheme, rc, "from_natives([%r])" % e, lambda rc=rc, e=e: rc.from_natives([e])))
+        if len(exprs) >= 2:
+            work.append((scheme, rc, "from_natives(%r)" % exprs[:2], lambda rc=rc, exprs=exprs: rc.from_natives(exprs[:2])))
+        work.append((scheme, rc, "from_string", lambda scheme=scheme: VR.VersionRange.from_string("vers:%s/>=1.0.0|<2.0.0" % scheme)))
+        work.append((scheme, rc, "from_versions", lambda rc=rc: rc.from_versions(["1.0.0", "2.0.0"])))
+        work.append((scheme, rc, "github", lambda scheme=scheme: VR.build_range_from_github_advisory_constraint(scheme, ">= 1.0.0, < 2.0.0")))
+        work.append((scheme, rc, "snyk", lambda scheme=scheme: VR.build_range_from_snyk_advisory_string(scheme, ">=1.0.0, <2.0.0")))
+        work.append((scheme, rc, "snyk brackets", lambda scheme=scheme: VR.build_range_from_snyk_advisory_string(scheme, "[1.0.0,2.0.0)")))
+    for gl, purl in sorted(VR.PURL_TYPE_BY_GITLAB_SCHEME.items()):
+        rc = VR.RANGE_CLASS_BY_SCHEMES.get(purl)
+        if rc is None:
+            continue
+        for e in NATIVES.get(rc.__name__, [])[:3] + [">=1.0.0 <2.0.0", "1.0.0"]:
+            work.append((purl, rc, "gitlab %s %r" % (gl, e), lambda gl=gl, e=e: VR.from_gitlab_native(gl, e)))
+    for scheme, rc, label, f in work:
+        try:
+            r = f()
+        except Exception:  # noqa: BLE001 — an expression this converter refuses: the business of C06 / C15 / C16
+            continue
+        if not isinstance(r, VR.VersionRange):
+            continue
+        ctx.count(stream, key=(scheme, label), nontrivial=True, branch=label.split("(")[0].split(" ")[0])
+        vc = type(r).version_class
+        bad = [c for c in r.constraints if c.version is not None and vc is not None and type(c.version) is not vc]
+        if bad or (rc is not None and type(r) is not rc and not label.startswith("gitlab")):
+            ctx.disagree(stream, "%s %s" % (scheme, label),
+                         "a %s holding %s" % (type(r).__name__, sorted({type(c.version).__name__ for c in bad}) or type(r).__name__),
+                         "versions of %s in a %s" % (getattr(vc, "__name__", vc), getattr(rc, "__name__", rc)), True,
+                         {"scheme": scheme, "route": label, "range": str(r),
+                          "clause": "the converted range holds versions of another class than its scheme's"}, spec="its own version class")
 
 
 class _Key:
